@@ -344,6 +344,14 @@ class Cycle(NodeRouting):
         self.cycle = cycle
         self.generator = itertools.cycle(self.cycle)
 
+    def initialise(self, simulation, node):
+        """
+        Gives the simulation and node attributes to the routing object,
+        and restarts the cycle for this simulation.
+        """
+        super().initialise(simulation, node)
+        self.generator = itertools.cycle(self.cycle)
+
     def error_check_at_initialise(self):
         if not set(self.cycle).issubset(set([nd.id_number for nd in self.simulation.nodes[1:]])):
             raise ValueError("Routing destinations should be a subset of the nodes in the network.")
